@@ -371,32 +371,59 @@ def _self_fld(t):
     return None
 
 
+def _is_check_mode(b, sw):
+    """the switch in block sw is on the discriminant of a CheckMode value"""
+    op = b.blocks[sw]['term']['discr']
+    if op.get('k') not in ('copy', 'move') or op['place']['proj']:
+        return False
+    for d in b.defs().get(op['place']['local'], []):
+        if d[0] == 'st' and d[3]['rv'].get('k') == 'discr':
+            ty = b.local_ty(d[3]['rv']['place']['local'])
+            return 'CheckMode' in ty and 'Option' not in ty
+    return False
+
+
 def _dispatch(ctx, prog, enum_b, dec):
     b = util.find_role(ctx, 'task evaluation: RobotBody fn taking Vec<CollisionTask>',
                        lambda b, sg: len(sg) > 1 and 'Vec<collisions::CollisionTask' in sg[1].replace('std::vec::', ''), module='collisions::')
     calls = {}
     for bi, t in b.calls():
         calls.setdefault(cname(callee_name(t)).split('::')[-1], []).append((bi, t))
-    # arms keyed by comparisons of mode with CheckMode variants
-    def arm_guards(bi):
-        out = []
+    # arms keyed by what the dominating edges say about the mode: comparisons `mode == CheckMode::X` (either polarity) or the
+    # arms of a `match mode { .. }`
+    variants = [v['name'] for v in prog.adts['collisions::CheckMode']['variants']]
+
+    def modes_at(bi):
+        possible = set(variants)
         for g, k, sw in b.guard_terms(bi):
+            g0 = strip(g)
             s = show(g, maxdepth=5)
             if 'eq(' in s.lower() or '==' in s:
-                out.append((s, opw.truth(k)))
-        return out
-    ok_first = False
-    for bi, t in calls.get('find_map_any', []):
-        g = arm_guards(bi)
-        ok_first = any('FirstCollisionOnly' in s and v is True for s, v in g) and any('NoCheck' in s and v is False for s, v in g)
-    ok_all = False
-    for bi, t in calls.get('filter_map', []):
-        g = arm_guards(bi)
-        ok_all = any('FirstCollisionOnly' in s and v is False for s, v in g) and any('NoCheck' in s and v is False for s, v in g)
+                tv = opw.truth(k)
+                for v in variants:
+                    if v in s and tv is True:
+                        possible &= {v}
+                    elif v in s and tv is False:
+                        possible -= {v}
+            elif isinstance(g0, tuple) and g0[0] == 'discr' and _is_check_mode(b, sw):
+                if isinstance(k, int) and not isinstance(k, bool) and k < len(variants):
+                    possible &= {variants[k]}
+                elif k == 'otherwise':
+                    possible -= {variants[int(v)] for v, tg in b.blocks[sw]['term']['targets'] if int(v) < len(variants)}
+        return possible
+    ok_first = any(modes_at(bi) == {'FirstCollisionOnly'} for bi, t in calls.get('find_map_any', [])) and \
+        all(modes_at(bi) == {'FirstCollisionOnly'} for bi, t in calls.get('find_map_any', []))
+    ok_all = any(modes_at(bi) == {'AllCollsions'} for bi, t in calls.get('filter_map', []))
+    # NoCheck: an empty vector (Vec::new() / vec![]) and no task evaluated
     ok_none = False
-    for bi, t in calls.get('new', []):
-        g = arm_guards(bi)
-        ok_none = ok_none or any('NoCheck' in s and v is True for s, v in g)
+    for t_, d, rb in b.return_values():
+        if d and modes_at(d[1]) == {'NoCheck'}:
+            tt = strip(t_)
+            ok_none = isinstance(tt, tuple) and tt[0] == 'call' and cname(tt[1]).split('::')[-1] in ('new', 'with_capacity', 'default') and \
+                not mir.contains(tt, lambda x: x[0] == 'call' and cname(x[1]).split('::')[-1] in ('find_map_any', 'filter_map', 'par_iter'))
+    if not ok_none:
+        for bi, t in calls.get('new', []):
+            ok_none = ok_none or modes_at(bi) == {'NoCheck'}
     ctx.check(ok_first, 'R10.6', 'dispatch/first', b.where(0), b.path, 'FirstCollisionOnly must use find_map_any (and only that mode)')
     ctx.check(ok_all, 'R10.6', 'dispatch/all', b.where(0), b.path, 'all-collisions mode must evaluate every task (filter_map + collect)')
     ctx.check(ok_none, 'R10.6', 'dispatch/none', b.where(0), b.path, 'NoCheck must return an empty list')
@@ -407,9 +434,17 @@ def _dispatch(ctx, prog, enum_b, dec):
         ok = 'mode' in show(a[1], maxdepth=4)
     ctx.check(ok, 'R10.6', 'dispatch/mode-source', b.where(0), b.path, 'mode must be the override or the mode of the safety table in use')
     # each closure evaluates task.collides(safety parameter)
+    consumers = {}
+    for bi, t in b.calls():
+        for a in t['args']:
+            cl, _ = util.closure_of_term(prog, b.op_term(a, (bi, None)))
+            if cl is not None:
+                consumers[cl.path] = cname(callee_name(t)).split('::')[-1]
     for c in util.closure_bodies(prog, b.path):
         ctx.fn(c)
         cs = [(bi, t) for bi, t in c.calls() if t['callee'].get('resolved') == dec.path]
+        if consumers.get(c.path) in ('map_or_else', 'map_or', 'unwrap_or_else', 'map', 'and_then', 'into_iter') and not cs and 'CollisionTask' not in ' '.join(util.sig(c)):
+            continue         # a closure that shapes the result (`|pair| vec![pair]`), not one that is run per task
         ctx.check(len(cs) == 1, 'R10.6', 'dispatch/closure-%s' % c.path.split('::')[-1], c.where(0), c.path, 'task closure must evaluate the task decision exactly once')
     # RobotBody::collides: NoCheck -> false, forces FirstCollisionOnly, negates is_empty
     cb = util.find_one(ctx, suffix='collisions::RobotBody::collides')
